@@ -401,6 +401,104 @@ theorem C16_handle_on_ended_session_runs_nothing (ops : List HOp) (h : HNet) (y 
     (handleExecRemoteK K (hrun h ops).net x y cid).2 ≠ .success :=
   C16_remote_handle_needs_live_session K (hrun h ops).net x y cid (hrun_dead ops h y cid hd).2
 
+/-! ### the request `send_local_command` goes through the same (repaired) test -/
+
+theorem localLogin_term {n : Net} {y : Nat} {u p : String} {nd b : Node} (hnd : n.node y = some nd)
+    (hb : (localLogin n y u p).1.node y = some b) : b.term = nd.term := by
+  rcases localLogin_cases n y u p with h | ⟨nd', hnd', _, h⟩ <;> rw [h] at hb
+  · rw [hnd] at hb; cases hb; rfl
+  · rw [hnd] at hnd'; cases hnd'
+    simp only [node_bump, node_upd, if_true, hnd, Option.map_some, Option.some.injEq] at hb
+    subst hb
+    rcases localLoginCore_fst nd u n.time n.nextId with ⟨h1, _⟩ | ⟨h1, _⟩ <;> rw [h1]
+    rfl
+
+/-- **C16, the local command request is the handle operation.** `send_local_command u p {command}` logs in with the supplied
+credentials, puts a fresh connection object for the session into the dictionary and calls ITS `execute`: with the repaired
+`execute` (which also asks whether the node's current local session is the connection's) the request behaves exactly as the
+model's `opLocalCmdK` says — right after the login the session is the node's current one, so the new test always passes here,
+and only kept objects ever fail it. -/
+theorem C16_local_command_is_handle_exec (K : Net → Net × Out) (n : Net) (y : Nat) (u p : String) (nd : Node) (id : Nat)
+    (hnd : n.node y = some nd) (hon : nd.isOn = true) (hid : (localLogin n y u p).2 = some id) :
+    (opLocalCmdK K n y u p).1 =
+      (handleExecLocalK K ((localLogin n y u p).1.upd y (Node.addConn ⟨id, none⟩)) y id true).1 := by
+  obtain ⟨b, l, hb, hl, hlid⟩ := localLogin_id hid
+  have hterm := localLogin_term hnd hb
+  have hm : ((localLogin n y u p).1.upd y (Node.addConn ⟨id, none⟩)).node y = some (b.addConn ⟨id, none⟩) := by
+    simp only [node_upd, if_true, hb, Option.map_some]
+  unfold opLocalCmdK handleExecLocalK
+  simp only [hnd, hon, hid, hm, Bool.not_true, Bool.false_eq_true, if_false]
+  have h1 : (b.addConn ⟨id, none⟩).term = nd.term := hterm
+  have h2 : (b.addConn ⟨id, none⟩).loc = some l := hl
+  rw [h1, h2]
+  cases hr : nd.term.running
+  · simp
+  · simp [hlid]
+
+theorem hstep_locDead (h : HNet) (op : HOp) (y cid : Nat) (hd : LocDead y cid h.net) : LocDead y cid (hstep h op).1.net := by
+  have F := locShrink_frame
+  have shrDead : ∀ m : Net, h.net.Shr m → LocDead y cid m := fun m hs =>
+    locDead_of_locShrink (F.rel_shr F.shr (F.rel_refl h.net) hs) (by rw [hs.nextId]; exact Nat.le_refl _) hd
+  cases op with
+  | base op => exact step_locDead h.net op y cid hd
+  | take x i =>
+    simp only [hstep]
+    split
+    · exact hd
+    · split
+      · exact hd
+      · split <;> exact hd
+  | hexec k c =>
+    simp only [hstep]
+    split
+    · exact hd
+    · rename_i x cn _
+      split
+      · cases hb : h.net.node x with
+        | none => simp only [handleExecLocalK, hb]; exact hd
+        | some b =>
+          rcases C16_local_handle_executes_iff (fun m => execCmd c m x) h.net x cn.id true b hb with ⟨_, _, _, h0⟩ | ⟨_, h0⟩
+          · rw [h0]; exact exec_locDead y cid c h.net x hd
+          · rw [h0]; exact hd
+      · rename_i y' hp
+        rcases C16_remote_handle_outcomes (fun m => execCmd c m y') h.net x y' cn.id with
+          ⟨h0, _⟩ | ⟨a, b, _, _, _, _, _, _, ⟨_, _, h0, _⟩ | ⟨_, h0, _⟩⟩
+        · show LocDead y cid (handleExecRemoteK _ h.net x y' cn.id).1
+          rw [h0]; exact hd
+        · show LocDead y cid (handleExecRemoteK _ h.net x y' cn.id).1
+          rw [h0]
+          have h1 : LocDead y cid (h.net.upd y' (Node.touch cn.id h.net.time)) :=
+            locDead_of_locShrink (F.rel_upd (F.rel_refl h.net) y' _ (fun _ => Or.inl rfl)) (Nat.le_refl _) hd
+          exact exec_locDead y cid c _ y' h1
+        · show LocDead y cid (handleExecRemoteK _ h.net x y' cn.id).1
+          rw [h0]; exact shrDead _ (shr_disconnect _ _ _ _)
+  | hdisc k =>
+    simp only [hstep]
+    split
+    · exact hd
+    · rename_i x cn _
+      split
+      · exact hd
+      · show LocDead y cid (handleDisconnect h.net x cn.id).1
+        unfold handleDisconnect
+        split
+        · exact hd
+        · exact shrDead _ (shr_disconnect _ _ _ _)
+
+theorem hrun_locDead (ops : List HOp) (h : HNet) (y cid : Nat) (hd : LocDead y cid h.net) : LocDead y cid (hrun h ops).net := by
+  induction ops generalizing h with
+  | nil => exact hd
+  | cons op ops ih => exact ih (hstep h op).1 (hstep_locDead h op y cid hd)
+
+/-- **C16, a kept local connection is dead for ever (sequences with handle operations).** Once the local session a kept local
+connection was opened on has ended, then after ANY sequence of operations — requests, ticks, logins of the same user, and
+operations on kept objects — a command on that object changes nothing and is answered `failure`. -/
+theorem C16_kept_local_connection_dead_for_ever (ops : List HOp) (h : HNet) (y cid : Nat) (hd : LocDead y cid h.net)
+    (K : Net → Net × Out) (active : Bool) (b : Node) (hb : (hrun h ops).net.node y = some b) :
+    handleExecLocalK K (hrun h ops).net y cid active = ((hrun h ops).net, .failure) :=
+  C16_local_handle_needs_live_session K (hrun h ops).net y cid active b hb
+    (fun l hl => (hrun_locDead ops h y cid hd).2 b l hb hl)
+
 /-! ### non-vacuity -/
 
 def hdemo : HNet := { net := { nodes := [{}, {}] } }
